@@ -77,6 +77,15 @@ def cases(tier, cfg, seed):
                     eager += f'{T2(T, e[0], e[i + 1])} t{i}_ = matmul({prev},{names[i].upper()}); '; prev = f't{i}_'
                 eager += f'D @OP {prev};'
                 out.append(Pair('chain' + 'x'.join(map(str, e)), T, bufs, decl, lazy, eager, (e[0], e[L])))
+        # compound assignment of a chain, on extents where the cost model re-associates (rows(A) > cols(last)) and where it does not
+        for e, op in (((3, 2, 2, 1), '-='), ((3, 2, 3, 2), '-='), ((2, 3, 2, 3), '-='), ((3, 2, 2, 1), '+='), ((3, 1, 2, 2), '+='), ((3, 2, 2, 2, 1), '-=')):
+            L = len(e) - 1; names = 'abcef'[:L]
+            bufs = [Buf(nm, T, e[i] * e[i + 1]) for i, nm in enumerate(names)]
+            decl = ' '.join(f'{T2(T, e[i], e[i + 1])} {nm.upper()}({nm});' for i, nm in enumerate(names))
+            eager = f'{T2(T, e[0], e[2])} t1_ = matmul(A,B); '; prev = 't1_'
+            for i in range(2, L):
+                eager += f'{T2(T, e[0], e[i + 1])} t{i}_ = matmul({prev},{names[i].upper()}); '; prev = f't{i}_'
+            out.append(Pair('chainc' + 'x'.join(map(str, e)), T, bufs, decl, ' % '.join(nm.upper() for nm in names), eager + f'D @OP {prev};', (e[0], e[L]), op))
     ids = {}; res = []
     for c in out:
         if c.id in ids: c.id = c.id + f'_{len(ids)}'
